@@ -61,7 +61,7 @@ func (c *Context) NewTreeNodeInstance(t *Tree, tn *TreeNode, protoName string) *
 func (c *Context) SendRaw(si *network.ServerIdentity, msg interface{}) error {
 	_, err := c.server.Send(si, msg)
 	if err != nil {
-		xerrors.Errorf("sending message: %v", err)
+		return xerrors.Errorf("sending message: %v", err)
 	}
 	return nil
 }
